@@ -30,6 +30,9 @@ THEOREMS = [
     "Qclib.C04_mcg_dispatch",
     "Qclib.C04_mcu_base",
     "Qclib.C04_mcu_error_partial",
+    "Qclib.C04_mcu_operator",
+    "Qclib.C04_mcu_degenerate",
+    "Qclib.C04_mcu_error",
 ]
 TRUSTED = [
     "the eigenbasis kernel (gates/util.py, complex Schur form) and the spectral formula of `_gate_u` / `custom_sqrtm` give "
@@ -37,7 +40,8 @@ TRUSTED = [
     "np.linalg.eig / np.angle inside `_get_num_base_ctrl_qubits`",
     "qiskit crx, x, UnitaryGate, QuantumCircuit.control(1, ctrl_state), QuantumCircuit.inverse, little-endian Operator "
     "(convention pinned numerically each run)",
-    "MultiTargetMCSU2 and Ldmcsu are opaque calls in this part (their correctness is part A of C04)",
+    "MultiTargetMCSU2 and Ldmcsu are opaque calls in the tie of this part (their correctness is part A of C04); in C04_mcu_operator / "
+    "C04_mcu_error the multi-target RX call has the ideal meaning that C04_multitarget_spec proves for >= 2 controls",
     "LinearMcx(action_only=True) inside Qdmcu is the model of C05 (Model/Mcx.lean), expanded and diffed gate by gate",
 ]
 ASSUMPTIONS = [
@@ -49,7 +53,9 @@ ASSUMPTIONS = [
     "the sorted schedule under the classical-propagation semantics; the operator-level step (that semantics is the "
     "amplitude semantics on basis inputs: RX angles add, RX(pi) is -iX, roots of a diagonalised U multiply by adding "
     "exponents; linearity; ctrl_state X conjugation) is stated, not proved",
-    "C04_mcu_error_partial: the one-qubit norm bound; the lift to the spectral norm of the full circuit is assumed",
+    "C04_mcu_error: l2 bound ||(circuit - C^k(U)) psi|| <= error ||psi|| for every state, given U = P diag(e^{i alpha}, e^{i beta}) P^dagger "
+    "with P unitary, |alpha|,|beta| <= angle, and the exact real base count numBaseR angle error; float evaluation of "
+    "log2/arccos/ceil in _get_num_base_ctrl_qubits is tied numerically (base count diffed on every accepted parameter set)",
 ]
 
 TOL = 1e-7
